@@ -140,6 +140,10 @@ def depends(rep, repo):
     from kvstatic import simops
     smod, init = simops.simops_init(repo)
     c01.check_wiring(rep, smod, init, simops.op_sites(init))
+    # ... and on the memory map: the location a PO/PPO is captured from must be the location of the line feeding it, and
+    # distinct live lines must not share memory (C08 map rules), otherwise an overwrite is not seen downstream or leaks sideways
+    from checks import c08
+    c08.map_rules(rep, repo)
 
 
 def thorough(rep, repo):
